@@ -44,6 +44,8 @@ def model_bad(enc, K, conds, ts):
             out.append((f"flag:{c[1]}", z3.Or([enc.var(i, f"G.{c[1]}") == INT0 + 1 for i in range(K + 1)])))
         elif kind == "final_flag_unset":
             out.append((f"unset:{c[1]}", z3.And(quiet, enc.var(K, f"G.{c[1]}") != INT0 + 1)))
+        elif kind == "custom":
+            out.append((c[1], c[2](enc, K)))
         elif kind == "uncaught":
             # a thread ended by an exception other than the ones the scenario expects
             allowed = [ts.U.codes.get(("exc", n)) for n in c[2]]
@@ -67,6 +69,9 @@ def real_bad(conds, ghost, done, blocked):
             hits.append(f"flag:{c[1]}")
         elif kind == "final_flag_unset" and ghost.get(c[1], 0) != 1:
             hits.append(f"unset:{c[1]}")
+        elif kind == "custom":
+            if c[3](ghost, done, blocked):
+                hits.append(c[1])
         elif kind == "uncaught":
             st = done.get(c[1], "")
             if st.startswith("uncaught:") and st.split(":", 1)[1] not in c[2]:
@@ -79,19 +84,30 @@ def replayable(enc):
     visible operation is a plain shared access directly follows the previous step of its thread."""
     ts = enc.ts
     cons = []
+    pt = ts.threads.index(ts.prefix_thread) if ts.prefix_thread is not None else None
     for i in range(1, enc.K):
         for e, f in enc.fired[i]:
             if not any(sync for _, _, sync in e.info):
                 ti = ts.threads.index(e.thread)
-                cons.append(z3.Implies(f, enc.choice[i - 1] == ti))
+                ok = enc.choice[i - 1] == ti
+                cons.append(z3.Implies(f, ok))
     for e, f in enc.fired[0]:
         if not any(sync for _, _, sync in e.info):
-            cons.append(z3.Not(f))
+            # only the set-up thread may open with a plain step: in the replay it is the thread already running
+            if pt is None or ts.threads.index(e.thread) != pt:
+                cons.append(z3.Not(f))
+    if pt is not None:
+        # ... and if it does, it does so before anybody else moves (it runs freely until its next sync point)
+        for e, f in enc.fired[0]:
+            if ts.threads.index(e.thread) != pt:
+                for e2 in ts.by_thread[ts.prefix_thread]:
+                    if e2.src == ts.entry[ts.prefix_thread] and not any(sync for _, _, sync in e2.info):
+                        cons.append(z3.Not(z3.And(f, enc.edge_enabled(e2, enc.states[0], enc.nd[0]))))
     return cons
 
 
-def sync_order(trace):
-    order = []
+def sync_order(trace, ts=None):
+    order = list(ts.prefix_order) if ts is not None else []
     for s in trace["steps"]:
         for ln, txt, sync in s["ops"]:
             if sync:
@@ -120,7 +136,7 @@ def check_scenario(spec: dict) -> dict:
         for _ in range(spec.get("validate", 3)):
             st, tr = simulate_replayable(sc, rng)
             maxlen = max(maxlen, len(tr))
-            order = [(e.thread, sync) for e in tr for _, _, sync in e.info if sync]
+            order = list(ts.prefix_order) + [(e.thread, sync) for e in tr for _, _, sync in e.info if sync]
             ghost, done, blocked, sched = sc.replay(order)
             want = sc.observe_model(st)
             got = sc.observe_real(ghost, done, blocked)
@@ -144,9 +160,13 @@ def check_scenario(spec: dict) -> dict:
         res["K"] = K
         res["encode_s"] = round(enc.build_s, 1)
 
+        disc = replayable(enc) if spec.get("sync_granularity") else []
+        res["granularity"] = "context switches at synchronisation operations only" if disc else "every shared access is a scheduling point"
+
         def run(name, cons, want_model=False):
             s = solver()
             s.add(enc.cons)
+            s.add(disc)
             s.add(cons)
             t0 = time.time()
             z3.set_param("timeout", int(budget * 1000))
@@ -175,7 +195,7 @@ def check_scenario(spec: dict) -> dict:
             else:
                 which = []
                 fin = tr["final"]
-                order = sync_order(tr)
+                order = sync_order(tr, ts)
                 ghost, done, blocked, sched = sc.replay(order)
                 hits = real_bad(sc.bad, ghost, done, blocked)
                 listing = [f"{s['thread']}: " + "; ".join(f"{txt}" for ln, txt, sy in s["ops"] if txt)[:160] for s in tr["steps"]]
@@ -204,7 +224,7 @@ def simulate_replayable(sc, rng, max_steps=3000):
     ts = sc.ts
     st = ts.init_state()
     trace = []
-    last = None
+    last = ts.prefix_thread
     for _ in range(max_steps):
         nd = rng.randrange(8)
         en = ts.enabled(st, nd)
@@ -273,7 +293,7 @@ def outcome_from(property_id, tier, results, functions, assumptions, bounds, out
         "obligations": 3 * len(results),
         "discharged": sum(1 for r in results for q in r["queries"][:3] if (q["result"] == "sat") == q["query"].startswith("witness")),
         "solver_s": round(solver_s, 1),
-        "per_scenario": [{k: r.get(k) for k in ("name", "K", "cfa_locations", "cfa_edges", "raw_edges", "state_vars", "universe", "protected", "queries", "traces_validated", "sim_max_steps", "wall_s", "second_solver")} for r in results],
+        "per_scenario": [{k: r.get(k) for k in ("name", "granularity", "K", "cfa_locations", "cfa_edges", "raw_edges", "state_vars", "universe", "protected", "queries", "traces_validated", "sim_max_steps", "wall_s", "second_solver")} for r in results],
         "bounds": bounds,
         "outside_the_claim": outside,
         "explanation": explanation,
